@@ -137,7 +137,19 @@ class CacheStore(object):
         if self._cache_is_valid(store_filename, filename):
             return None
 
-        tmp_fd, tmp_filename = tempfile.mkstemp(prefix='g-ir-scanner-cache-')
+        # Create the temporary file next to its destination: only then is the
+        # final move an atomic rename.  Across file systems shutil.move()
+        # copies in place, and other scanner processes can see (or write into)
+        # the half-copied entry.
+        try:
+            tmp_fd, tmp_filename = tempfile.mkstemp(prefix='g-ir-scanner-cache-',
+                                                    dir=self._directory)
+        except (IOError, OSError) as e:
+            # Permission denied
+            if e.errno == errno.EACCES:
+                return
+            else:
+                raise
         try:
             with os.fdopen(tmp_fd, 'wb') as tmp_file:
                 pickle.dump(data, tmp_file)
@@ -146,8 +158,9 @@ class CacheStore(object):
                 # later change of that file always makes the entry stale.
                 os.utime(tmp_filename, ns=(mtime_ns, mtime_ns))
         except (IOError, OSError) as e:
-            # No space left on device
-            if e.errno == errno.ENOSPC:
+            # No space left on device, or the temporary file was removed by
+            # another scanner process purging the cache
+            if e.errno in (errno.ENOSPC, errno.ENOENT):
                 self._remove_filename(tmp_filename)
                 return
             else:
